@@ -286,6 +286,12 @@ static void kernel_pairs(size_t n, vf::Rng& r) {
   std::string base(n, 0);
   for (auto& ch : base) ch = (char)r.range(1, 255);
   auto positions = mismatch_positions(n, r);
+  {
+    std::string w = "InlinedMemcmpEq/InlinedMemcmp, length " + std::to_string(n) + ", first-difference positions {";
+    for (long mp : positions) w += std::to_string(mp) + ",";
+    w += "} (-1 = equal) x operand placements (a ends 0..64 bytes before an unmapped page; b starts 0..100 bytes after one / ends 0..64 before one)";
+    vf::witness(w);
+  }
 #if VF_SANITIZER
   static const size_t gaps_a[] = {0};
   static const size_t offs_b[] = {0};
